@@ -11,7 +11,7 @@ tech={
  'C06':'proptest + exhaustive raw round trips on all 132 base widths x default forms; static facts (ZERO/DEFAULT/size/align/Copy) per declaration',
  'C07':'exhaustive / proptest sweeps of raw values of generated bitenums; oracle = discriminant table, round trips both ways',
  'C08':'proptest over enum / Option<enum> / nested-bitfield fields; oracle = reference register + discriminant table',
- 'C09':'generated declarations plus single-step perturbations across the validity boundary; compile verdict (rustc JSON diagnostics, two macro build profiles) vs rule transcription, both directions',
+ 'C09':'generated declarations (fields r/w/rw/none) plus single-step perturbations across the validity boundary and systematic multi-field seeds; compile verdict (rustc JSON diagnostics, two macro build profiles) vs rule transcription, both directions; declarations the statement leaves open: same verdict from both macro profiles',
  'C10':'boundary cross product + random bitenum declarations and mutations; compile verdict vs acceptance predicate (two macro profiles); accepted enums swept exhaustively at run time',
  'C11':'model-based stateful testing: proptest histories of with_/set_/builder/read ops on arbitrary-int bases against an N-bit model, re-wrap indistinguishability after every step; overhang probes',
  'C12':'model-based stateful testing: proptest histories on layouts with overlapping fields; step-wise model plus independent last-write-wins oracle',
@@ -21,7 +21,7 @@ tech={
  'C16':'differential testing across build profiles: identical seeded case streams in dev (checks on, opt 0), release (checks off, opt 3) [thorough: + checked]; digests and model compared, totality under catch_unwind',
  'C17':'generated declarations with r/w/rw/none fields and rw twins; presence probes must compile, absence probes must fail to compile (rustc diagnostics per probe line), probes outside the declaring module',
  'C18':'generated documented declarations compiled in a #![no_std] #![deny(missing_docs)] crate; nightly macro expansion tokenised and scanned for unsafe / std / alloc',
- 'C19':'proptest over raw values and histories of generated debug declarations; oracle = derive(Debug) twin struct filled from model values ({:?} and {:#?})',
+ 'C19':'proptest over raw values and histories of generated debug declarations; oracle = derive(Debug) twin struct filled from model values ({:?} and {:#?}); generated debug declarations with a write-only / accessor-less / array field must not compile',
 }
 checks=[]
 for p in props:
